@@ -15,7 +15,7 @@ RULE = ('E1 enumeration: 3-5 level-0 cells (numbers not in card order); per cell
         '{IMP:N=v, IMP:N,P=v, IMP:N=v IMP:P=w, IMP:P=w IMP:N=v, none}; data cards imp:n (and optionally imp:p) '
         'written expanded or with nR / nM / nI shorthand; values in {0, 1, 2, 0.25, 0.5, 1e-10, 2.5e-11} (fractional and tiny importances are non-zero); one of the other MCNP cell parameters (VOL, UNC, NONU, TMP, PWT, EXT, FCL, ELPT, WWN, DXC, PD, COSY, BFLCL) on the first card; oracle: set of VOLU ids = cells '
         'whose maximum importance over particle types is non-zero, NOTE line lists exactly the others; '
-        'non-trivial = at least one cell dropped and one kept; distinct = deck text; also: LIKE copies taking data-card entries, data-card-only decks with two particle types, decks of 12-130 cells, nI interpolation of every length 3 ... 170, second data card for a symbol-named particle (| / #)')
+        'non-trivial = at least one cell dropped and one kept; distinct = deck text; also: LIKE copies taking data-card entries, data-card-only decks with two particle types, decks of 12-130 cells, nI interpolation of every length 3 ... 170, second data card for a symbol-named particle (| / #); a universe cell of importance 0 (keyword or data-card position) inside a filled level-0 cell, compared with the same deck at importance 1')
 ASSUMPTIONS = ['importance of a cell = maximum over the particle types given (property statement)',
                'decks in which every cell has zero importance are not generated (nothing to convert)']
 
